@@ -35,6 +35,13 @@ Theorem C07_forward_effects_once : forall d i, (i < nvars d)%nat -> (nvars d <= 
 Proof. exact forward_effects_once. Qed.
 Print Assumptions C07_forward_effects_once.
 
+(* ... and once per call over a history of calls on the same bound module, direct or differentiated in any mixture: after n
+   calls a variable the forward pass increments has grown by exactly n, every other variable is unchanged *)
+Theorem C07_effects_once_per_call : forall n d i, (i < nvars d)%nat -> (nvars d <= length (d_vals d))%nat ->
+  nth i (snd (hist n d)) 0 = nth i (d_vals d) 0 + (if existsb (Nat.eqb i) (d_bumps d) then Z.of_nat n else 0).
+Proof. exact effects_once_per_call. Qed.
+Print Assumptions C07_effects_once_per_call.
+
 (* NOT proved: that lift.vjp / jvp route through lift.pack as the model says and that jax differentiates polynomials
    symbolically; the custom_vjp clauses (forward value unchanged, user rule used when differentiating) are decided per
    run by the correspondence only. *)
